@@ -239,10 +239,18 @@ def sec_sv_nf(rep):
                     seen.append(("diff", n))
                     return []
 
+            class Coeff(dict):
+                # the kernel's own flavour number differs from the Combiner's for intrinsic kernels
+                # (built with ihq - 1): the scale-variation manager must get the Combiner's
+                def convolution_point(self):
+                    return 0.3
+
+            Coeff.nf = nf - 1 if chan == "intrinsic" else nf + 10
+
             class K:
                 channel = chan
                 partons = {1: 1.0}
-                coeff = {0: lambda: None, 1: lambda: None}
+                coeff = Coeff({0: lambda: None, 1: lambda: None})
 
                 def has_order(self, o):
                     return True
@@ -261,6 +269,48 @@ def sec_sv_nf(rep):
                 e.compute_local()
             exp = [("common", nf), ("diff", nf)] if chan != "intrinsic" else [("diff", nf)]
             rep.add(ob_eval(f"C06/compute_local/nf-passed-to-sv-manager/{chan}/nf={nf}", seen == exp, detail=str(seen)))
+
+
+def _kernel_nf_worker(sub, c):
+    """One lattice cell: every kernel the REAL Combiner collects carries the Combiner's nf."""
+    sy = H.Sy().numeric({"x": 0.01, "Q2": 5.0e4, "m2c": 2.0, "m2b": 20.0, "m2t": 3.0e4})
+    name = "C06/kernel-nf/" + H.cell_name(c)
+    try:
+        cfg = H.cell_configs(sy, c)
+        ks, comb = H.collect(sy, cfg, c["kind"], c["flavor"], c["nf"])
+    except (NotImplementedError, ValueError):
+        sub.extra["cells_rejected"] = sub.extra.get("cells_rejected", 0) + 1  # C16's matter
+        return
+    sub.cases += 1
+    bad = []
+    for k in ks:
+        fam = type(k.coeff).__module__.split(".")[2]
+        knf = getattr(k.coeff, "nf", None)
+        pids = sorted({abs(p) for p in k.partons})
+        if fam == "intrinsic":
+            # heavy-quark-initiated kernels are built for the quark itself: nf = ihq - 1 by design
+            exp = (max(pids) - 1) if pids else knf
+        else:
+            exp = comb.nf
+        if knf != exp:
+            bad.append((type(k.coeff).__module__.split(".", 2)[2] + "." + type(k.coeff).__name__, knf, exp))
+        if fam == "heavy" and type(k.coeff).__name__.startswith("Singlet") and pids != list(range(1, comb.nf + 1)):
+            bad.append((type(k.coeff).__name__ + " partons", pids, list(range(1, comb.nf + 1))))
+    sub.add(ob_eval(name + f"/every kernel is built with nf={comb.nf} (heavy-quark-initiated ones with ihq-1); heavy singlet weights span the nf light quarks", comb.nf == c["nf"] and not bad, detail=f"{len(ks)} kernels" + (f"; offending (class, nf used, nf expected): {bad[:4]}" if bad else ""), inputs={} if not bad else {"cell": H.cell_name(c), "offending": str(bad[:4])}))
+
+
+def sec_kernel_nf(rep, tier):
+    """'the coefficient functions at Q2 use exactly that number': over the configuration lattice the
+    number handed to every coefficient-function object (and the flavour range of the heavy singlet
+    weights) is the Combiner's nf.  Concrete kinematics suffice: the collectors branch on discrete
+    data only once nf is fixed (C20/C07 read-set lemmas)."""
+    import yadism.coefficient_functions as cf
+
+    rep.under_contract(cf.Combiner.collect_elems, cf.Combiner.heavy_components, cf.Combiner.light_component)
+    cells = list(H.lattice(tier))
+    from pvc.core import parallel
+
+    parallel(rep, cells, _kernel_nf_worker)
 
 
 def sec_sv_history(rep):
@@ -320,7 +370,7 @@ def run(rep, tier, seed, only=None):
         "floats as reals: the threshold is by definition the computed double m^2*k^2, only comparisons follow",
         "Runner.__init__ is run for real (eko interpolator, Atlas); symbolic masses only in ZM-VFNS (other schemes multiply by inf thresholds)",
     )
-    for nm, f in (("update_fns", sec_update_fns), ("runner", sec_runner_atlas), ("nf", sec_nf), ("sv", sec_sv_nf), ("svhistory", sec_sv_history), ("readset", sec_readset)):
+    for nm, f in (("update_fns", sec_update_fns), ("runner", sec_runner_atlas), ("nf", sec_nf), ("sv", sec_sv_nf), ("svhistory", sec_sv_history), ("readset", sec_readset), ("kernelnf", lambda r: sec_kernel_nf(r, tier))):
         if only and only not in nm:
             continue
         rep.add(guarded(f"C06/{nm}", lambda f=f: (f(rep), [])[1]))
